@@ -93,6 +93,9 @@ func Oracle(it secs2.Item, ref *e5.Val) (string, string, bool) {
 	if again := it.ToSML(); again != want {
 		return "tosml-unstable", "second ToSML differs from the first", false
 	}
+	if k, d := history(it, want); k != "" {
+		return k, d, false
+	}
 	if !readable(ref, true) {
 		return "", "", false
 	}
@@ -124,6 +127,64 @@ func Oracle(it secs2.Item, ref *e5.Val) (string, string, bool) {
 		}
 	}
 	return "", "", true
+}
+
+// perturbations: every non-default way of rendering the same item. None of them may leave anything
+// behind: after each one the default entry points still give the text they gave before it.
+var perturbations = []struct {
+	name string
+	opts []sml.EncoderOption
+}{
+	{"EncodeStrict", nil},
+	{"strict", []sml.EncoderOption{sml.WithEncoderStrictMode(true)}},
+	{"ascii-single", []sml.EncoderOption{sml.WithASCIIQuote(sml.QuoteSingle)}},
+	{"sf-single", []sml.EncoderOption{sml.WithSFQuote(sml.QuoteSingle)}},
+	{"sf-double", []sml.EncoderOption{sml.WithSFQuote(sml.QuoteDouble)}},
+	{"binary-literal", []sml.EncoderOption{sml.WithBinaryStyle(sml.BinaryLiteral)}},
+	{"indent-tab", []sml.EncoderOption{sml.WithIndent("\t")}},
+	{"all", []sml.EncoderOption{sml.WithEncoderStrictMode(true), sml.WithASCIIQuote(sml.QuoteSingle), sml.WithSFQuote(sml.QuoteSingle), sml.WithBinaryStyle(sml.BinaryLiteral), sml.WithIndent(" ")}},
+}
+
+// history: operation sequences (one non-default rendering, then every default entry point) on the
+// same item; the default entry points are compared with what they returned before the sequence.
+func history(it secs2.Item, want string) (string, string) {
+	msg, err := hsms.NewDataMessage(1, 1, true, 0, [4]byte{0, 0, 0, 1}, it)
+	if err != nil {
+		return "", ""
+	}
+	msgWant, errWant := sml.EncodeMessage(msg)
+	for _, pt := range perturbations {
+		if pt.opts == nil {
+			_ = sml.EncodeStrict(it)
+		} else {
+			_ = sml.NewEncoder(pt.opts...).Encode(it)
+			_, _ = sml.EncodeMessage(msg, pt.opts...)
+			_ = sml.MustEncodeMessage(msg, pt.opts...)
+		}
+		if got := sml.Encode(it); got != want {
+			i := firstDiff(got, want)
+			return "history:" + pt.name + ":Encode", fmt.Sprintf("after one %s rendering of the same item sml.Encode differs from ToSML at byte %d: %q vs %q", pt.name, i, around(got, i), around(want, i))
+		}
+		if got := sml.NewEncoder().Encode(it); got != want {
+			i := firstDiff(got, want)
+			return "history:" + pt.name + ":NewEncoder", fmt.Sprintf("after one %s rendering of the same item NewEncoder().Encode differs from ToSML at byte %d: %q vs %q", pt.name, i, around(got, i), around(want, i))
+		}
+		if got := defEnc.Encode(it); got != want {
+			i := firstDiff(got, want)
+			return "history:" + pt.name + ":encoder-reuse", fmt.Sprintf("after one %s rendering of the same item a long-lived default Encoder differs from ToSML at byte %d: %q vs %q", pt.name, i, around(got, i), around(want, i))
+		}
+		if got, err := sml.EncodeMessage(msg); got != msgWant || (err == nil) != (errWant == nil) {
+			i := firstDiff(got, msgWant)
+			return "history:" + pt.name + ":EncodeMessage", fmt.Sprintf("after one %s rendering sml.EncodeMessage (no options) changed at byte %d: %q vs %q", pt.name, i, around(got, i), around(msgWant, i))
+		}
+		if got := it.ToSML(); got != want {
+			return "history:" + pt.name + ":ToSML", fmt.Sprintf("after one %s rendering ToSML changed", pt.name)
+		}
+	}
+	if errWant == nil && !strings.Contains(msgWant, want) {
+		return "message-body", fmt.Sprintf("sml.EncodeMessage (no options) does not contain the item's ToSML text: %q", clipS(msgWant))
+	}
+	return "", ""
 }
 
 func clipS(s string) string {
@@ -234,7 +295,7 @@ func space(thorough bool, yield func(gen.Case) bool) {
 func TestCheck(t *testing.T) {
 	vfw.Main(t, "C15", func(c *vfw.Ctx) {
 		c.Level("exploration")
-		c.Rule("E1 enumeration: the empty item; gen.Leaves natural+narrowest argument shapes: every format code x counts {0,1,2,3, 255/256 and (thorough) 65535/65536 payload crossings} x value patterns (ints min/max/-1/alt, uints max/hibit, floats 0/-0/±1/±max/smallest subnormal/NaN/±Inf/distinct bit patterns/0.1 multiples, byte strings cycle/00/FF/7F, 5 localized headers); all list trees with <= 5 (thorough 6) nodes over 8 leaves; all such trees over {EmptyItem, L[], U1, A, F8} that contain an EmptyItem child; chains depth 0..64; wide lists of 8 kinds at 1,2,5,21,85,256 (thorough 65535/65536) children. Oracle: sml.Encode(it) == NewEncoder().Encode(it) == it.ToSML() byte for byte; for numeric/boolean/binary items and lists of them (plain-text string children tolerated, no EmptyItem) sml.Parse and sml.ParseStrict of \"S1F1 W\\n<text>\\n.\" return one S1F1 W message whose body matches the reference value (F4 at float32 precision, NaN by NaN-ness). non-trivial = item with at least one element/child")
+		c.Rule("E1 enumeration: the empty item; gen.Leaves natural+narrowest argument shapes: every format code x counts {0,1,2,3, 255/256 and (thorough) 65535/65536 payload crossings} x value patterns (ints min/max/-1/alt, uints max/hibit, floats 0/-0/±1/±max/smallest subnormal/NaN/±Inf/distinct bit patterns/0.1 multiples, byte strings cycle/00/FF/7F, 5 localized headers); all list trees with <= 5 (thorough 6) nodes over 8 leaves; all such trees over {EmptyItem, L[], U1, A, F8} that contain an EmptyItem child; chains depth 0..64; wide lists of 8 kinds at 1,2,5,21,85,256 (thorough 65535/65536) children. Oracle: sml.Encode(it) == NewEncoder().Encode(it) == it.ToSML() byte for byte, also after every operation sequence {one non-default rendering of the same item (EncodeStrict / each encoder option alone / all options; Encoder.Encode, EncodeMessage, MustEncodeMessage), then each default entry point (Encode, NewEncoder().Encode, a long-lived default Encoder, EncodeMessage without options)} — a default rendering does not depend on what was rendered before; for numeric/boolean/binary items and lists of them (plain-text string children tolerated, no EmptyItem) sml.Parse and sml.ParseStrict of \"S1F1 W\\n<text>\\n.\" return one S1F1 W message whose body matches the reference value (F4 at float32 precision, NaN by NaN-ness). non-trivial = item with at least one element/child")
 		c.Assume("ref/e5 reference values and ref/refcmp accessor comparison", "Go runtime")
 		seen := map[string]bool{}
 		run := func(cs gen.Case) bool {
